@@ -717,7 +717,18 @@ def solve_matrix(matrix, mode=EXACT):
     fs = [Factoid(f) if isinstance(f, collections.abc.Iterable) else f for f in matrix]
     db = dict()
     for ft in fs:
-        insert_db(db, dfactoid(ft, ASM(ft)))
+        df = dfactoid(ft, ASM(ft))
+        # The analysis assumes that the coefficients of each factoid have
+        # gcd one, so the input factoids are normalized in the same way
+        # as the derived ones.
+        g = functools.reduce(gcd, ft[:-1])
+        if g > 1:
+            df = dfactoid(Factoid([floor(i / g) for i in ft]), GCDCheck(df.deriv))
+        if df.factoid.is_true_factoid():
+            continue
+        elif df.factoid.is_false_factoid():
+            return "UNSAT", Contr(df.deriv)
+        insert_db(db, df)
     r = solve(EXACT, db, len(matrix[0]))
     if isinstance(r, Satisfiable):
         return "SAT", r.store
@@ -850,7 +861,12 @@ class OmegaHOL:
 
     def handle_unsat_result(self, res):
         if isinstance(res, Contr):
-            return self.handle_unsat_result(res.deriv)
+            pt = self.handle_unsat_result(res.deriv)
+            if pt.prop.is_less_eq() and pt.prop.arg.is_number():
+                # One of the input inequalities is of the form 0 <= c, with c < 0.
+                pt_less_zero = proofterm.ProofTerm('int_const_ineq', term.less(term.IntType)(pt.prop.arg, term.Int(0)))
+                pt = logic.apply_theorem('int_zero_less_eq_neg', pt_less_zero, pt)
+            return pt
         
         elif isinstance(res, ASM):
             return proofterm.ProofTerm.assume(self.fact_hol[res.t])
